@@ -126,6 +126,9 @@ impl<T: std::future::Future> std::future::Future for InSpan<T> {
         match res {
             r @ Poll::Pending => r,
             other => {
+                // Leave the local parent scope first so that its spans are submitted before the
+                // span (and, for a root, the trace) is finished.
+                drop(_guard);
                 this.span.take();
                 other
             }
